@@ -32,7 +32,7 @@ func (c08Prop) Race() bool    { return false }
 
 func (c08Prop) Count(tier string) int {
 	if tier == "thorough" {
-		return 12000
+		return 20000
 	}
 	return 260
 }
@@ -196,6 +196,7 @@ func (c08Prop) Execute(p *Plan, run *Run) any {
 	}
 	data := bf.Bytes
 	target := bf.Desc.Type
+	run.Probes.Inc("type:" + pl.File.Type + "/" + pl.File.Writer)
 
 	narrow := func(b int) *Plan {
 		q := p.clone()
